@@ -32,10 +32,10 @@ RULE = (
 TOLERANCES = {"law_rel": 1e-10, "path_rel": 1e-10, "readback_rel": 1e-12}
 EXHAUSTIVE = {"quick": False, "thorough": True}
 EXHAUSTIVE_PART = "thorough: every (2-D shape class x material class) pair at least 3 paths; quick: every pair once"
-FLOORS = {"quick": {"law.area": 400, "law.ndens": 400, "law.dims": 400, "law.path": 400, "law.link": 100, "law.hotset": 200, "law.fluid": 20, "hook:Component.setTemperature": 1000,
+FLOORS = {"quick": {"law.area": 400, "law.ndens": 400, "law.dims": 400, "law.path": 400, "law.link": 100, "law.hotset": 200, "law.fluid": 20, "law.path-through-zero-celsius": 100, "hook:Component.setTemperature": 1000,
                     "law.area/unshapedcomponent": 20, "law.expanding-set": 400, "law.hotset-count": 200, "law.link/circle": 100, "law.link/hexagon": 100,
                     "law.link/rectangle": 100, "law.link-write": 60, "law.link-replace": 60, "law.link-unlinked-follow": 60},
-          "thorough": {"law.area": 4000, "law.ndens": 4000, "law.dims": 4000, "law.path": 4000, "law.link": 1000, "law.hotset": 2000, "law.fluid": 200, "hook:Component.setTemperature": 10000,
+          "thorough": {"law.area": 4000, "law.ndens": 4000, "law.dims": 4000, "law.path": 4000, "law.link": 1000, "law.hotset": 2000, "law.fluid": 200, "law.path-through-zero-celsius": 1000, "hook:Component.setTemperature": 10000,
                        "law.area/unshapedcomponent": 200, "law.expanding-set": 4000, "law.hotset-count": 2000, "law.link/circle": 1000, "law.link/hexagon": 1000,
                        "law.link/rectangle": 1000, "law.link-write": 600, "law.link-replace": 600, "law.link-unlinked-follow": 600}}
 ASSUMPTIONS = [
@@ -135,6 +135,21 @@ def temp_range_C(mat):
     return 20.0, 600.0
 
 
+def zero_celsius_ok(scls, mname):
+    """0 C is inside the stated validity range of the expansion law, or the material states none."""
+    from armi import materials
+
+    mat = getattr(materials, mname, None)
+    pvt = getattr(mat, "propertyValidTemperature", {}) or {}
+    for key in ("linear expansion percent", "linear expansion", "thermal expansion", "cumulative linear expansion"):
+        if key in pvt:
+            (lo, hi), u = pvt[key]
+            if u == "K":
+                lo, hi = lo - 273.15, hi - 273.15
+            return lo <= 0.0 <= hi
+    return True
+
+
 def pct(mat, T):
     return mat.linearExpansionPercent(Tc=T)
 
@@ -213,6 +228,15 @@ def one_component(rec, rng, sname, scls, mcls, matmod, custom):
     path = [rng.uniform(lo, hi) for _ in range(npath)]
     if rng.random() < .3 and npath > 1:
         path[-1] = Thot  # return to start
+    if zero_celsius_ok(scls, mname) and rng.random() < .3:
+        # boundary value: a stop at exactly 0.0 C (falsy in python) followed by another temperature
+        k = rng.randrange(len(path))
+        path.insert(k, 0.0)
+        if k == len(path) - 1:
+            path.append(rng.uniform(lo, hi))
+        rec.hit("law.path-through-zero-celsius")
+    if rng.random() < .15:
+        path.insert(rng.randrange(len(path) + 1), Tin)  # and one at exactly the input temperature
     w["path"] = path
     # which dimensions expand is the generator's statement, never the class attribute under test; the two are compared
     tedims = expanding_keys(dims)
